@@ -23,41 +23,6 @@ Proof.
     + apply (IH (d ++ [a])); auto. rewrite <- app_assoc. auto.
 Qed.
 
-(* references through a column whose policy is not 'null' survive the null-outs *)
-Lemma refs_after_null : forall test name x k P r,
-  test SetNull = false ->
-  refs_by test name x k (null_row P (c_fks k) r) = refs_by test name x k r.
-Proof.
-  intros test name x k P [i vals] Ht. unfold refs_by, null_row; cbn.
-  revert vals. induction (c_fks k) as [|c cs IH]; intros vals; destruct vals as [|v vs]; cbn; auto.
-  rewrite IH. f_equal.
-  destruct v as [y|]; auto.
-  destruct (fk_policy c) eqn:Ep; cbn; auto. rewrite Ht. auto.
-Qed.
-
-Lemma refs_matches : forall test name x k r,
-  test NoAction = false -> refs_by test name x k r = true -> row_matches name x k r = true.
-Proof.
-  intros test name x k [i vals] Ht. unfold refs_by, row_matches; cbn.
-  revert vals. induction (c_fks k) as [|c cs IH]; intros vals; destruct vals as [|v vs]; cbn; auto.
-  intros H. apply orb_true_iff in H as [H|H]; [|apply orb_true_iff; right; auto].
-  apply andb_true_iff in H as [H H3]. apply andb_true_iff in H as [H1 H2].
-  apply orb_true_iff; left. rewrite H3, andb_true_r. unfold collected. rewrite H2. cbn.
-  destruct (fk_policy c); cbn; auto. congruence.
-Qed.
-
-Lemma refs_dep : forall test name x k r,
-  test NoAction = false -> refs_by test name x k r = true ->
-  existsb (fun c => test (fk_policy c)) (dep_cols name k) = true.
-Proof.
-  intros test name x k [i vals] Ht. unfold refs_by, dep_cols; cbn.
-  revert vals. induction (c_fks k) as [|c cs IH]; intros vals; destruct vals as [|v vs]; cbn; try discriminate.
-  intros H. apply orb_true_iff in H as [H|H].
-  - apply andb_true_iff in H as [H H3]. apply andb_true_iff in H as [H1 H2].
-    unfold collected. rewrite H2. destruct (fk_policy c) eqn:Ep; cbn; rewrite ?Ep, ?H1; auto. congruence.
-  - destruct (collected name c); cbn; [apply orb_true_iff; right|]; eapply IH; eauto.
-Qed.
-
 Section Total.
 Variable dc : bool.
 Variable g : graph.
@@ -133,11 +98,22 @@ Proof.
       apply D in H as [H|[]]; auto.
     - intros r Hr Href. exfalso. apply refs_dep in Href; auto. rewrite Enil in Href. discriminate. }
   destruct (existsb (fun c => is_restrict (fk_policy c)) (dep_cols name k) &&
-            negb (is_nil (select_matching name x k (ap sg1 st0)))) eqn:Htest.
+            negb (is_nil (select_restricting name x k (ap sg1 st0)))) eqn:Htest.
   { left. eauto. }
-  assert (Hcase : existsb (fun c => is_restrict (fk_policy c)) (dep_cols name k) = false \/
-                  select_matching name x k (ap sg1 st0) = []).
-  { apply andb_false_iff in Htest as [H|H]; auto. right. apply negb_false_iff in H. apply is_nil_true; auto. }
+  (* no surviving row of this class references the victim through cascade=False *)
+  assert (Hnr1 : forall r, In r (table st0 n) -> keep sg1 n r = true ->
+                           refs_by is_restrict name x k r = false).
+  { intros r Hr Hkeep. destruct (refs_by is_restrict name x k r) eqn:Href; auto. exfalso.
+    apply andb_false_iff in Htest as [H|H].
+    - apply refs_dep in Href; auto. congruence.
+    - apply negb_false_iff in H. apply is_nil_true in H.
+      unfold select_restricting in H. fold n in H. rewrite table_apply in H. rewrite Hcols in H.
+      set (r' := null_row (sg_null sg1 n) (c_fks k) r).
+      assert (Hin : In r' (map (null_row (sg_null sg1 n) (c_fks k))
+                               (filter (keep sg1 n) (table st0 n)))).
+      { apply in_map. apply filter_In. split; auto. }
+      pose proof (filter_nil_all _ _ H r' Hin) as Hm.
+      unfold r' in Hm. rewrite row_restricts_refs, refs_after_null in Hm; auto. congruence. }
   set (En := existsb (fun c => is_setnull (fk_policy c)) (dep_cols name k)).
   set (sg2 := if En then add_null n name x sg1 else sg1).
   assert (E2 : (if En then fold_left (fun s r => sql_null_row k name x (r_id r) s)
@@ -168,17 +144,7 @@ Proof.
                              delp sg2 (n, r_id r)).
   { intros r Hr Href. unfold Cascade.delp; cbn. rewrite <- Hdel1.
     destruct (sg_del sg1 n (r_id r)) eqn:Ed; auto. exfalso.
-    destruct Hcase as [Er|H0].
-    - apply refs_dep in Href; auto. congruence.
-    - rewrite select_apply in H0 by auto.
-      set (r' := null_row (sg_null sg1 (c_name k)) (c_fks k) r).
-      assert (Hin : In r' (map (null_row (sg_null sg1 (c_name k)) (c_fks k))
-                               (filter (keep sg1 (c_name k)) (table st0 (c_name k))))).
-      { apply in_map. apply filter_In. split; auto. unfold keep. fold n. rewrite Ed. auto. }
-      pose proof (filter_nil_all _ _ H0 r' Hin) as Hm.
-      assert (Hm' : row_matches name x k r' = true).
-      { apply (refs_matches is_restrict); auto. unfold r'. rewrite refs_after_null; auto. }
-      congruence. }
+    rewrite (Hnr1 r Hr) in Href; [discriminate|]. unfold keep. fold n. rewrite Ed. auto. }
   destruct (existsb (fun c => is_cascade (fk_policy c)) (dep_cols name k)) eqn:Ec.
   2:{ right. exists sg2, []. split; auto. split; auto. split; [|split; [|split; [|split]]].
     - eapply desc_ext; [apply D12|..]; intros; try tauto.
@@ -192,34 +158,15 @@ Proof.
             keep sg2 n r && row_matches name x k (null_row (sg_null sg2 n) (c_fks k) r) =
             keep sg2 n r && refs_by is_cascade name x k r).
   { intros r Hr. destruct (keep sg2 n r) eqn:Ek; auto. cbn.
-    destruct Hcase as [Er|H0].
-    - destruct r as [i vals]. unfold row_matches, null_row, refs_by; cbn.
-      apply match_after_null.
-      + intros c Hc Hcol. rewrite existsb_false in Er. apply Er. unfold dep_cols. apply filter_In; auto.
-      + intros c Hc Hcol Hs.
-        assert (HEn : En = true).
-        { unfold En. apply existsb_exists. exists c. split; auto. unfold dep_cols. apply filter_In; auto. }
-        unfold sg2. rewrite HEn. cbn. rewrite !N.eqb_refl, Z.eqb_refl. apply orb_true_r.
-    - (* nothing matched before the null pass, so nothing matches after it *)
-      rewrite select_apply in H0 by auto. fold n in H0.
-      set (r1 := null_row (sg_null sg1 n) (c_fks k) r).
-      assert (Hin : In r1 (map (null_row (sg_null sg1 n) (c_fks k)) (filter (keep sg1 n) (table st0 n)))).
-      { apply in_map. apply filter_In. split; auto. unfold keep in *. rewrite Hdel1. auto. }
-      pose proof (filter_nil_all _ _ H0 r1 Hin) as Hm1.
-      assert (Hc0 : refs_by is_cascade name x k r = false).
-      { destruct (refs_by is_cascade name x k r) eqn:E; auto.
-        assert (row_matches name x k r1 = true).
-        { apply cascade_ref_matches. unfold r1. rewrite refs_after_null; auto. }
-        congruence. }
-      rewrite Hc0.
-      destruct (row_matches name x k (null_row (sg_null sg2 n) (c_fks k) r)) eqn:E2; auto.
-      exfalso. unfold sg2 in E2. destruct En.
-      + cbn in E2.
-        assert (Heq : null_row (fun t y => sg_null sg1 n t y || (N.eqb n n && N.eqb t name && Z.eqb y x)) (c_fks k) r
-                      = null_row (fun t y => N.eqb n n && N.eqb t name && Z.eqb y x) (c_fks k) r1).
-        { unfold r1. rewrite null_row_fuse. auto. }
-        rewrite Heq in E2. apply matches_null_mono in E2. congruence.
-      + fold r1 in E2. congruence. }
+    assert (Hnr : refs_by is_restrict name x k r = false).
+    { apply Hnr1; auto. unfold keep in *. fold n. rewrite Hdel1. auto. }
+    destruct r as [i vals]. unfold row_matches, null_row, refs_by; cbn.
+    apply match_after_null.
+    - exact Hnr.
+    - intros c Hc Hcol Hs.
+      assert (HEn : En = true).
+      { unfold En. apply existsb_exists. exists c. split; auto. unfold dep_cols. apply filter_In; auto. }
+      unfold sg2. rewrite HEn. cbn. rewrite !N.eqb_refl, Z.eqb_refl. apply orb_true_r. }
   assert (Hids : map r_id (select_matching name x k (ap sg2 st0)) =
                  map r_id (filter (fun r => keep sg2 n r && refs_by is_cascade name x k r) (table st0 n))).
   { rewrite select_apply by auto. rewrite filter_map', map_map. cbn. rewrite filter_filter'. f_equal.
@@ -516,14 +463,14 @@ Proof.
   - exfalso. eapply terminates; eauto.
 Qed.
 
-(* every destroyed row is gone from its table, and on a caching connection
-   also from the identity map *)
+(* every destroyed row is gone from its table and from the identity map, on
+   caching and non-caching connections alike *)
 Theorem gone : forall dc g st p fuel st',
   wf_graph g = true -> wf_state st = true -> acyclicb g st p = true ->
   (fuel > length (all_nodes g st))%nat ->
   destroy dc fuel g st p = Done st' ->
   forall q, In q (closure g st p) ->
-    row_exists st' q = false /\ (dc = true -> get_found st' q = false).
+    row_exists st' q = false /\ get_found st' q = false.
 Proof.
   intros dc g st p fuel st' WG WS H Hfuel Hd q Hq.
   rewrite (done_is_spec dc g st p fuel st' WG WS H Hfuel Hd).
@@ -533,7 +480,7 @@ Proof.
     destruct (Z.eqb (r_id r) (snd q)) eqn:E; auto. apply Z.eqb_eq in E.
     apply negb_true_iff in Hr. rewrite E in Hr. destruct q as [k i]; cbn in *.
     apply mem_In in Hq. congruence. }
-  split; auto. intros ->. unfold get_found. rewrite Hrow, orb_false_r.
+  split; auto. unfold get_found. rewrite Hrow, orb_false_r.
   unfold apply; cbn. match goal with |- ?m = false => destruct m eqn:E; auto end.
   apply mem_In in E. apply filter_In in E as [_ E]. cbn in E. apply negb_true_iff in E.
   destruct q as [k i]; cbn in *. apply mem_In in Hq. congruence.
